@@ -1,0 +1,106 @@
+//go:build verif
+
+// Contracts for nsqd/topic.go, area K: Empty / exit / Delete / Close / DeleteExistingChannel (C08, C05).
+// Ghosts and the BackendQueue / Notify contracts are in zz_contracts_kchannel_verif.go and
+// .trusted/kchannel.spec. Comment-only file.
+
+package nsqd
+
+// Every channel in a topic's map was built by NewChannel, which always sets nsqd and a backend
+// (dummy queue for ephemeral channels, diskqueue otherwise). Used as `lockassume` below (call protocol);
+// it could be promoted to the lock invariant of Topic.RWMutex together with a stronger NewChannel stub.
+//@ pred kTopicChannelsBuilt(t *Topic) := forall k string :: {t.channelMap[k]} has(t.channelMap, k) ==> flowChan(t.channelMap[k])
+
+// PROPERTY TEXT (C08): emptying a topic discards what is queued: the memory queue is drained - received and
+// dropped, never written to the backend - then the backend is emptied and its error returned.
+//@ func (t *Topic) Empty() error
+//@   props C08 C13
+//@   requires flowTopic(t)
+//@   ensures[backend-emptied-once] kBqEmpties == old(kBqEmpties) + 1 && kBqEmptyQueue == t.backend
+//@   ensures[backend-error-returned] result == kBqEmptyErr
+//@   ensures[discarded-not-persisted] backendWrites == old(backendWrites) && topicPuts == old(topicPuts)
+//@   ensures[drain-only] sent(t.memoryMsgChan) == old(sent(t.memoryMsgChan)) && recvd(t.memoryMsgChan) >= old(recvd(t.memoryMsgChan))
+//@   ensures[counters-untouched] t.messageCount == old(t.messageCount) && t.messageBytes == old(t.messageBytes)
+//@   modifies kBqEmpties, chanstore(*Message)
+//@   loop 0
+//@     invariant[drain-only] sent(t.memoryMsgChan) == old(sent(t.memoryMsgChan)) && recvd(t.memoryMsgChan) >= old(recvd(t.memoryMsgChan)) && kBqEmpties == old(kBqEmpties)
+
+// PROPERTY TEXT (C08): deleting a topic deletes every channel it is iterating over (each taken out of the map
+// first), discards its own queue and removes its disk files; closing closes the channels, persists the
+// memory queue and closes the backend. Exactly once (flag 0 -> 1 by compare-and-swap; a second call returns
+// an error and does nothing). Ephemeral topics are announced with persist == false.
+//@ func (t *Topic) exit(deleted bool) error
+//@   props C08 C05
+//@   requires flowTopic(t)
+//@   lockassume kTopicChannelsBuilt(t)
+//@   ensures[second-call-refused] old(t.exitFlag) != 0 ==> result != nil && t.exitFlag == old(t.exitFlag)
+//@   ensures[second-call-no-effect] old(t.exitFlag) != 0 ==> kNotifies == old(kNotifies) && kInitPQs == old(kInitPQs) && kBqEmpties == old(kBqEmpties) && kBqDeletes == old(kBqDeletes) && kBqCloses == old(kBqCloses) && kFlushes == old(kFlushes) && kTopicFlushes == old(kTopicFlushes) && backendWrites == old(backendWrites) && sent(t.exitChan) == old(sent(t.exitChan))
+//@   ensures[flag-set] old(t.exitFlag) == 0 ==> t.exitFlag == 1
+//@   ensures[delete-announced] old(t.exitFlag) == 0 && deleted ==> kNotifies >= old(kNotifies) + 1
+//@   ensures[delete-removes-files] old(t.exitFlag) == 0 && deleted ==> kBqDeletes >= old(kBqDeletes) + 1 && kBqDeleteQueue == t.backend && result == kBqDeleteErr && kBqEmptyQueue == t.backend && kBqDeleteSawEmpties == kBqEmpties
+//@   ensures[delete-persists-nothing] old(t.exitFlag) == 0 && deleted ==> kBqCloses == old(kBqCloses) && kFlushes == old(kFlushes) && kTopicFlushes == old(kTopicFlushes) && backendWrites == old(backendWrites)
+//@   ensures[delete-forgets-channels] old(t.exitFlag) == 0 && deleted ==> atunlock(len(t.channelMap)) <= atlock(len(t.channelMap))
+//@   ensures[close-flushes-then-closes] old(t.exitFlag) == 0 && !deleted ==> kTopicFlushes == old(kTopicFlushes) + 1 && kFlushTopic == t && kBqCloses >= old(kBqCloses) + 1 && kBqCloseQueue == t.backend && kBqCloseSawWrites == kFlushes + kTopicFlushes && result == kBqCloseErr
+//@   ensures[close-discards-nothing] old(t.exitFlag) == 0 && !deleted ==> kNotifies == old(kNotifies) && kInitPQs == old(kInitPQs) && kBqEmpties == old(kBqEmpties) && kBqDeletes == old(kBqDeletes) &&
+//@        atunlock(t.channelMap) == atlock(t.channelMap) && atunlock(len(t.channelMap)) == atlock(len(t.channelMap))
+//@   ensures[counters-untouched] t.messageCount == old(t.messageCount) && t.messageBytes == old(t.messageBytes)
+//@   modifies t.exitFlag, t.channelMap, mapstore(map[string]*Channel), kNotifies,
+//@        Channel.exitFlag, Channel.clients, mapstore(map[int64]Consumer), clientV2.InFlightCount, kConsEmptied, kConsClosed, kLastCons,
+//@        Channel.inFlightMessages, Channel.inFlightPQ, mapstore(map[MessageID]*Message), Message.index, Channel.deferredMessages, Channel.deferredPQ, mapstore(map[MessageID]*pqueue.Item),
+//@        kInitPQs, kBqEmpties, kBqDeletes, kChanDeletes, kBqCloses, kFlushes, kTopicFlushes, backendWrites, lastWriteMsg, lastWriteQueue, lastWriteErr, chanstore(*Message), chanstore(int)
+//@   loop 0
+//@     invariant[first] old(t.exitFlag) == 0 && t.exitFlag == 1 && deleted
+//@     invariant[announced] kNotifies >= old(kNotifies) + 1 && kBqDeletes >= old(kBqDeletes)
+//@     invariant[channels-built] kTopicChannelsBuilt(t) && t.channelMap != nil && len(t.channelMap) <= atlock(len(t.channelMap))
+//@     invariant[persists-nothing] kBqCloses == old(kBqCloses) && kFlushes == old(kFlushes) && kTopicFlushes == old(kTopicFlushes) && backendWrites == old(backendWrites)
+//@     invariant[counters] t.messageCount == old(t.messageCount) && t.messageBytes == old(t.messageBytes)
+//@   loop 1
+//@     invariant[first] old(t.exitFlag) == 0 && t.exitFlag == 1 && !deleted
+//@     invariant[channels-kept] kTopicChannelsBuilt(t) && t.channelMap == atlock(t.channelMap) && len(t.channelMap) == atlock(len(t.channelMap)) && (forall k string :: {t.channelMap[k]} (has(t.channelMap, k) <==> atlock(has(t.channelMap, k))) && t.channelMap[k] == atlock(t.channelMap[k]))
+//@     invariant[discards-nothing] kNotifies == old(kNotifies) && kInitPQs == old(kInitPQs) && kBqEmpties == old(kBqEmpties) && kBqDeletes == old(kBqDeletes) && kTopicFlushes == old(kTopicFlushes) && kBqCloses >= old(kBqCloses)
+//@     invariant[counters] t.messageCount == old(t.messageCount) && t.messageBytes == old(t.messageBytes)
+
+//@ func (t *Topic) Delete() error
+//@   props C08
+//@   requires flowTopic(t)
+//@   ensures[second-call-refused] old(t.exitFlag) != 0 ==> result != nil && t.exitFlag == old(t.exitFlag) && kBqDeletes == old(kBqDeletes) && kBqEmpties == old(kBqEmpties) && kNotifies == old(kNotifies)
+//@   ensures[deleted] old(t.exitFlag) == 0 ==> t.exitFlag == 1 && kNotifies >= old(kNotifies) + 1 && kBqDeletes >= old(kBqDeletes) + 1 && kBqDeleteQueue == t.backend && result == kBqDeleteErr && kBqEmptyQueue == t.backend
+//@   ensures[persists-nothing] kBqCloses == old(kBqCloses) && kFlushes == old(kFlushes) && kTopicFlushes == old(kTopicFlushes) && backendWrites == old(backendWrites)
+//@   modifies t.exitFlag, t.channelMap, mapstore(map[string]*Channel), kNotifies,
+//@        Channel.exitFlag, Channel.clients, mapstore(map[int64]Consumer), clientV2.InFlightCount, kConsEmptied, kConsClosed, kLastCons,
+//@        Channel.inFlightMessages, Channel.inFlightPQ, mapstore(map[MessageID]*Message), Message.index, Channel.deferredMessages, Channel.deferredPQ, mapstore(map[MessageID]*pqueue.Item),
+//@        kInitPQs, kBqEmpties, kBqDeletes, kChanDeletes, kBqCloses, kFlushes, kTopicFlushes, backendWrites, lastWriteMsg, lastWriteQueue, lastWriteErr, chanstore(*Message), chanstore(int)
+
+//@ func (t *Topic) Close() error
+//@   props C08 C05
+//@   requires flowTopic(t)
+//@   ensures[second-call-refused] old(t.exitFlag) != 0 ==> result != nil && t.exitFlag == old(t.exitFlag) && kBqCloses == old(kBqCloses) && kTopicFlushes == old(kTopicFlushes)
+//@   ensures[closed] old(t.exitFlag) == 0 ==> t.exitFlag == 1 && kTopicFlushes == old(kTopicFlushes) + 1 && kFlushTopic == t && kBqCloses >= old(kBqCloses) + 1 && kBqCloseQueue == t.backend && result == kBqCloseErr
+//@   ensures[discards-nothing] kInitPQs == old(kInitPQs) && kBqEmpties == old(kBqEmpties) && kBqDeletes == old(kBqDeletes) && kNotifies == old(kNotifies)
+//@   modifies t.exitFlag, t.channelMap, mapstore(map[string]*Channel), kNotifies,
+//@        Channel.exitFlag, Channel.clients, mapstore(map[int64]Consumer), clientV2.InFlightCount, kConsEmptied, kConsClosed, kLastCons,
+//@        Channel.inFlightMessages, Channel.inFlightPQ, mapstore(map[MessageID]*Message), Message.index, Channel.deferredMessages, Channel.deferredPQ, mapstore(map[MessageID]*pqueue.Item),
+//@        kInitPQs, kBqEmpties, kBqDeletes, kChanDeletes, kBqCloses, kFlushes, kTopicFlushes, backendWrites, lastWriteMsg, lastWriteQueue, lastWriteErr, chanstore(*Message), chanstore(int)
+
+// PROPERTY TEXT (C08): deleting a channel by name: an unknown name is refused and nothing is deleted; otherwise
+// the channel found is deleted FIRST (so that concurrent SUBs fail instead of re-creating it) and then taken out
+// of the topic's map; other channels are not touched.
+// An EPHEMERAL TOPIC follows its last channel: the topic's own deletion is started (go t.deleter.Do, recorded by the
+// onceSpawns ghosts of zz_contracts_ephemeral_verif.go) exactly when this call removed the last channel of an
+// ephemeral topic - the deleted channel's own kind does not matter - and never otherwise.
+//@ func (t *Topic) DeleteExistingChannel(channelName string) error
+//@   props C08
+//@   requires t != nil && t.nsqd != nil
+//@   lockassume kTopicChannelsBuilt(t)
+//@   ensures[unknown-refused] result != nil ==> kChanDeletes == old(kChanDeletes) && kBqDeletes == old(kBqDeletes) && kBqEmpties == old(kBqEmpties) && kNotifies == old(kNotifies) && !atlock(has(t.channelMap, channelName))
+//@   ensures[channel-deleted-once] result == nil ==> kChanDeletes == old(kChanDeletes) + 1 && kDeletedChan != nil
+//@   ensures[removed-from-map] result == nil ==> !atunlock(has(t.channelMap, channelName))
+//@   ensures[others-kept] result == nil ==> (forall k string :: {atunlock(t.channelMap[k])} k != channelName ==> (atunlock(has(t.channelMap, k)) <==> atlock(has(t.channelMap, k))) && atunlock(t.channelMap[k]) == atlock(t.channelMap[k]))
+//@   ensures[persists-nothing] kBqCloses == old(kBqCloses) && kFlushes == old(kFlushes) && backendWrites == old(backendWrites)
+//@   ensures[refused-starts-nothing] result != nil ==> onceSpawns == old(onceSpawns)
+//@   ensures[topic-follows-only-if-ephemeral] onceSpawns != old(onceSpawns) ==> t.ephemeral && result == nil && onceSpawns == old(onceSpawns) + 1 && onceSpawned == &t.deleter && atunlock(len(t.channelMap)) == 0
+//@   ensures[ephemeral-topic-follows-last-channel] result == nil && t.ephemeral && atunlock(len(t.channelMap)) == 0 ==> onceSpawns == old(onceSpawns) + 1
+//@   modifies t.channelMap, mapstore(map[string]*Channel), kNotifies, onceSpawns,
+//@        Channel.exitFlag, Channel.clients, mapstore(map[int64]Consumer), clientV2.InFlightCount, kConsEmptied, kConsClosed, kLastCons,
+//@        Channel.inFlightMessages, Channel.inFlightPQ, mapstore(map[MessageID]*Message), Message.index, Channel.deferredMessages, Channel.deferredPQ, mapstore(map[MessageID]*pqueue.Item),
+//@        kInitPQs, kBqEmpties, kBqDeletes, kChanDeletes, kBqCloses, kFlushes, backendWrites, lastWriteMsg, lastWriteQueue, lastWriteErr, chanstore(*Message), chanstore(int)
